@@ -256,8 +256,11 @@ CreateTypeIR(reg, S, e, derives, attrs) ==
 
 \* two same-path types can share one generated item iff their candidate items coincide
 CandidateItem(reg, S, id) == CreateTypeIR(reg, S, Ty(reg, id), {}, {})
+\* ... up to Box at field level, which is transparent on the wire
+UnboxItemWith(S, it) == [it EXCEPT !.fields = [i \in DOMAIN @ |-> [@[i] EXCEPT !.ty = Unbox(S, @)]],
+                                   !.variants = [v \in DOMAIN @ |-> [@[v] EXCEPT !.fields = [i \in DOMAIN @ |-> [@[i] EXCEPT !.ty = Unbox(S, @)]]]]]
 CoRepItems(reg, S, a, b) == LET ca == CandidateItem(reg, S, a)  cb == CandidateItem(reg, S, b) IN
-                            ca.err = "" /\ cb.err = "" /\ ca.item = cb.item
+                            ca.err = "" /\ cb.err = "" /\ UnboxItemWith(S, ca.item) = UnboxItemWith(S, cb.item)
 
 (* ---------------- the generation loop as a state machine ---------------- *)
 \* gst = [i: next registry position, items: Seq([path, id, item]), res, errid, events]
